@@ -37,8 +37,8 @@ Section WithSpecs.
         match rem with
         | [] => DHelp (help_output specs ppath (match ups with [] => true | _ => false end) parent)
         | a0 :: _ =>
-            match List.find (fun kc => str_eqb (ni_name (n_info (snd kc))) a0) (n_cmds parent) with
-            | Some (_, c) => DHelp (help_output specs (ppath ++ [ni_name (n_info c)]) false c)
+            match alookup a0 (n_cmds parent) with   (* the topic is the name the command is declared and selected by *)
+            | Some c => DHelp (help_output specs (ppath ++ [ni_name (n_info c)]) false c)
             | None => DErr (mkErrA ENoHelpTopic [a0] (msg_no_help_topic a0) false)
             end
         end
